@@ -5,6 +5,7 @@ package main
 
 import (
 	"bytes"
+	"encoding/json"
 	"fmt"
 	"os"
 	"path/filepath"
@@ -85,8 +86,132 @@ func c20MixWeb(cs *c20Case, obs *c20Obs) {
 			}
 		})
 	}
+	c20SettingsPhase(cs, obs, web, r, urls)
 	if err := web.close(); err != nil {
 		obs.fail("C20/web/serve-error", "serving the web UI returned %v", err)
+	}
+}
+
+// c20SettingsPhase: /saveconfig and /deleteconfig from several goroutines (every goroutine works on
+// its own configuration names, so the final contents do not depend on the order), mixed with page
+// requests that read the settings for their menu.  Afterwards settings.json must hold exactly
+// what the same requests leave when issued one after the other.
+func c20SettingsPhase(cs *c20Case, obs *c20Obs, web *c20Web, r *Rng, urls []string) {
+	file := filepath.Join(os.Getenv("XDG_CONFIG_HOME"), "pprof", "settings.json")
+	// every save is an fsync + rename: keep this phase small
+	rounds, ops := 1+cs.Rounds/8, cs.Ops
+	if ops > 5 {
+		ops = 5
+	}
+	for round := 0; round < rounds; round++ {
+		plans := make([][]string, cs.Goroutines)
+		for g := range plans {
+			live := []string{}
+			for j := 0; j < ops; j++ {
+				switch {
+				case len(live) > 0 && r.Chance(25):
+					k := r.Intn(len(live))
+					plans[g] = append(plans[g], "/deleteconfig?config="+live[k])
+					live = append(live[:k], live[k+1:]...)
+				case len(live) > 0 && r.Chance(25):
+					plans[g] = append(plans[g], fmt.Sprintf("/saveconfig?config=%s&f=F%d&n=%d", live[r.Intn(len(live))], 1+r.Intn(5), r.Intn(9)))
+				default:
+					name := fmt.Sprintf("g%dc%d", g, j)
+					live = append(live, name)
+					plans[g] = append(plans[g], fmt.Sprintf("/saveconfig?config=%s&f=F%d&h=F%d", name, 1+r.Intn(5), 1+r.Intn(5)))
+				}
+			}
+		}
+		read := func() (map[string]string, error) {
+			b, err := os.ReadFile(file)
+			if os.IsNotExist(err) {
+				return map[string]string{}, nil
+			}
+			if err != nil {
+				return nil, err
+			}
+			var doc struct {
+				Configs []map[string]any `json:"configs"`
+			}
+			if err := json.Unmarshal(b, &doc); err != nil {
+				return nil, fmt.Errorf("settings.json does not parse: %v", err)
+			}
+			out := map[string]string{}
+			for _, c := range doc.Configs {
+				name, _ := c["name"].(string)
+				if _, dup := out[name]; dup {
+					return nil, fmt.Errorf("configuration %q saved twice", name)
+				}
+				cb, _ := json.Marshal(c)
+				out[name] = string(cb)
+			}
+			return out, nil
+		}
+		// alone: one goroutine's requests after the other
+		os.Remove(file)
+		for _, pl := range plans {
+			for _, u := range pl {
+				if rp := web.get(u); rp.status != 200 {
+					obs.Error = fmt.Sprintf("%s alone: status %d %s", u, rp.status, rp.body)
+					return
+				}
+			}
+		}
+		want, err := read()
+		if err != nil {
+			obs.Error = "settings after the sequential run: " + err.Error()
+			return
+		}
+		os.Remove(file)
+		// overlapped, together with page requests
+		pages := cs.Goroutines / 2
+		c20Together(cs.Goroutines+pages, func(id int) {
+			if id >= cs.Goroutines {
+				for j := 0; j < ops; j++ {
+					u := urls[(id*5+j)%len(urls)]
+					var rp c20Resp
+					c20Fl.do(func() { rp = web.get(u) })
+					obs.hit("page-during-settings-update")
+					if rp.status >= 400 {
+						obs.fail("C20/settings/page-fails", "%s answered %d while configurations were being saved", u, rp.status)
+					}
+				}
+				return
+			}
+			for _, u := range plans[id] {
+				var rp c20Resp
+				c20Fl.do(func() { rp = web.get(u) })
+				obs.hit(strings.SplitN(u, "?", 2)[0])
+				if rp.status != 200 {
+					obs.fail("C20/settings"+strings.SplitN(u, "?", 2)[0]+"/fails", "%s answered %d %q under concurrent settings updates; alone it succeeds", u, rp.status, rp.body)
+				}
+			}
+		})
+		got, err := read()
+		if err != nil {
+			obs.fail("C20/settings/file-corrupt", "after concurrent /saveconfig and /deleteconfig: %v", err)
+			continue
+		}
+		if !reflect.DeepEqual(got, want) {
+			var missing, extra []string
+			for k := range want {
+				if got[k] != want[k] {
+					missing = append(missing, k)
+				}
+			}
+			for k := range got {
+				if _, ok := want[k]; !ok {
+					extra = append(extra, k)
+				}
+			}
+			sort.Strings(missing)
+			sort.Strings(extra)
+			obs.fail("C20/settings/lost-update", "after concurrent /saveconfig and /deleteconfig on disjoint names settings.json differs from the sequential result: missing or different %v, unexpected %v", missing, extra)
+		}
+		tmps, _ := filepath.Glob(file + ".tmp*")
+		if len(tmps) > 0 {
+			obs.fail("C20/settings/temp-left-behind", "temporary settings files left behind: %v", tmps)
+		}
 	}
 }
 
